@@ -187,6 +187,33 @@ def run(chk):
             chk.report_oracle("output differs from the reading of the statement (python oracle over an independent regex engine)",
                               {"case": l, "implementation": i, "expected": f"{est} {eout.hex()}", "model": m})
     cmp_model(chk, cases, impl, model, "K-regex")
+    # the RegexBag itself (RE and "(RE)+") is built by main: the real binary, end to end, on a sample of the cases
+    from common import build_tuc, run_cli
+    tuc = build_tuc(release=False)
+    sample_idx = list(range(0, len(cases), max(1, len(cases) // (3000 if chk.tier == "quick" else 30000))))
+    cli = []
+    for k in sample_idx:
+        c, cfg = cases[k], cfgs[k]
+        argv = ["-e", c["re"], "-f", c["b"]]
+        for fl, key in (("-g", "g"), ("-p", "p"), ("-s", "s"), ("-m", "m")):
+            if cfg[key]:
+                argv.append(fl)
+        if cfg["j"]:
+            argv.append("-j")
+        if cfg["t"]:
+            argv += ["-t", cfg["t"]]
+        if cfg["r"] is not None:
+            argv += ["-r", cfg["r"].decode()]
+        if cfg["fb"] is not None:
+            argv += ["--fallback-oob", cfg["fb"].decode()]
+        cli.append((argv, c["in"], k))
+    for (argv, inp, k), (st, out) in zip(cli, run_cli(tuc, [(a, i) for a, i, _ in cli])):
+        chk.evaluations += 1
+        chk.count("cli")
+        est, eout = spec_run(inp, cfgs[k])
+        if st != ("0" if est == "ok" else "1") or (est == "ok" and out != eout):
+            chk.report_oracle("CLI: output differs from the reading of the statement (python oracle over an independent regex engine)",
+                              {"argv": argv, "stdin_hex": inp.hex(), "binary": [st, out.hex()], "expected": f"{est} {eout.hex()}"})
     # the matcher: real engine vs python's re vs the Lean model; and the contract
     ml = [case_line(c) for c in M]
     mi = run_impl(ml)
